@@ -186,7 +186,12 @@ static void build_shared (vf_rng *r)
     nshared = 0;
     while (nshared < NSHARED) {
         rq_request *q = &shared[nshared]; rq_generate (r, q, RQP_NO_ACCESSORS);
-        if (nshared < 2) { q->src.kind = nshared ? RQ_LINEAR : RQ_SOLID; }
+        if (nshared == 0) q->src.kind = RQ_SOLID;
+        if (nshared == 1 && q->src.kind < RQ_LINEAR) continue;        /* the second shared source is a gradient (as generated, with its stops) */
+        /* shared sources are also handed to the glyph entry points, which - unlike pixman_image_composite32 - do not analyse the source extents: an image
+         * larger than the library's own size limit (a request composite32 would drop) is outside what this property is about and is not shared */
+        if (q->src.kind == RQ_BITS && (q->src.w > 32767 || q->src.h > 32767)) continue;
+        if (q->has_mask && q->mask.kind == RQ_BITS && (q->mask.w > 32767 || q->mask.h > 32767)) continue;
         if (!rq_build (q, r)) continue;
         /* first use by the main thread, before any other thread exists: validates the images (and their alpha maps) */
         rq_run (q);
